@@ -29,6 +29,7 @@ HB == Hole("B")  HI == Hole("I")  HS == Hole("S")  HT == Hole("T")
 C1(f, x) == Call(Id0(f), <<x>>)
 C2(f, x, y) == Call(Id0(f), <<x, y>>)
 SL(c) == StrL(c)
+FL(x) == Lit("Float", x)
 T1 == Lit("DateTime", "2020-02-29T00:00:00")  T2 == Lit("DateTime", "2019-12-31T23:59:59")
 
 ExpandLogic(h) ==
@@ -40,15 +41,18 @@ ExpandLogic(h) ==
 ExpandArith(h) ==
   CASE h = "B" -> { <<0, Cmp(o, HI, a)>> : o \in {"eq", "lt", "ge", "ne"}, a \in {IntL(1), mC} }
                   \cup { <<0, Cmp("gt", IntL(0), HI)>>, <<0, Cmp("in", HI, Lst(<<IntL(-2), IntL(3)>>))>> }
+                  \cup { <<0, Cmp(o, Hole("N"), c)>> : o \in {"eq", "lt", "ge"}, c \in {FL("0.5"), FL("1.5"), FL("2.5"), IntL(1)} }
+    [] h = "N" -> { <<1, Bin(o, HI, f)>> : o \in {"div", "mul", "add", "sub"}, f \in {FL("2.0"), FL("0.5")} }
+                  \cup { <<1, Bin("sub", FL("1.5"), HI)>>, <<1, Bin("mul", FL("-0.5"), HI)>> }
     [] h = "I" -> { <<0, x>> : x \in {nC, mC, IntL(-2), IntL(1), IntL(3)} }
                   \cup { <<1, Bin(o, HI, HI)>> : o \in {"add", "sub", "mul"} }
                   \cup { <<1, Bin(o, HI, IntL(k))>> : o \in {"div", "mod"} \ (IF Backend = "sqlalchemy" THEN {"div"} ELSE {}), k \in {2, -2} }
-                  \cup (IF Backend = "django" THEN {} ELSE { <<1, Un("neg", HI)>> })
+                  \cup (IF Backend = "sqlite" THEN { <<1, Un("neg", HI)>> } ELSE {})
 ExpandStrings(h) ==
   CASE h = "B" -> { <<0, C2(f, HS, p)>> : f \in {"contains", "startswith", "endswith"},
                                           p \in {SL(<<97>>), SL(<<37>>), SL(<<95>>), SL(<<Q>>), SL(<<92>>), SL(<<>>), SL(<<97, 37>>)} }
                   \cup { <<0, C2(f, HS, uC)>> : f \in {"contains", "startswith", "endswith"} }
-                  \cup { <<0, Cmp(o, HS, p)>> : o \in {"eq", "lt", "ge"}, p \in {SL(<<97, 98>>), SL(<<97, 37, 98>>), uC} }
+                  \cup { <<0, Cmp(o, HS, p)>> : o \in {"eq", "lt", "ge"}, p \in {SL(<<97, 98>>), SL(<<65, 66>>), SL(<<97, 37, 98>>), uC} }
                   \cup { <<0, Cmp(o, C1("length", HS), IntL(k))>> : o \in {"eq", "gt"}, k \in {0, 2} }
                   \cup { <<0, Cmp(o, C2("indexof", HS, p), IntL(k))>> : o \in {"eq", "lt"}, k \in {0, 1}, p \in {SL(<<98>>), SL(<<37>>), uC} }
                   \cup { <<0, Cmp("in", HS, Lst(<<SL(<<97>>), SL(<<111, Q, 114>>), SL(<<37>>)>>))>> }
@@ -58,7 +62,7 @@ ExpandStrings(h) ==
                   \cup { <<1, C2("substring", HS, IntL(k))>> : k \in {0, 1, 2} }
                   \cup { <<1, Call(Id0("substring"), <<HS, IntL(k), IntL(j)>>)>> : k \in {0, 1}, j \in {0, 1, 2} }
 ExpandMisc(h) ==
-  CASE h = "B" -> { <<0, x>> : x \in { bC, Cmp("eq", bC, BoolL("false")), Cmp("ne", bC, BoolL("true")), Cmp("eq", bC, NullL),
+  CASE h = "B" -> { <<0, x>> : x \in (IF Backend = "django" THEN {} ELSE {bC}) \cup { Cmp("eq", bC, BoolL("false")), Cmp("ne", bC, BoolL("true")), Cmp("eq", bC, NullL),
                                        Cmp("eq", NullL, nC), Cmp("ne", NullL, sC), Cmp("ne", dC, NullL), Cmp("eq", nC, mC), Cmp("ne", sC, uC),
                                        Cmp("lt", dC, T1), Cmp("ge", dC, T1), Cmp("eq", dC, T2), Cmp("gt", T1, dC), Cmp("le", IntL(1), nC),
                                        Cmp("in", nC, Lst(<<IntL(0)>>)), Cmp("in", sC, Lst(<<SL(<<>>), SL(<<97, 95, 98>>)>>)),
@@ -87,15 +91,20 @@ Tuples(cols) == IF cols = <<>> THEN {<<>>}
 EnvOf(cols, tup) == [c \in {cols[i] : i \in 1..Len(cols)} |-> tup[CHOOSE i \in 1..Len(cols) : cols[i] = c]]
 Sat(x) == LET cols == RefCols(x) IN { tup \in Tuples(cols) : Eval(x, EnvOf(cols, tup)) = TRUEV }
 
-\* the same filter under the named deviation "like_dynamic_meta" (a pattern taken from data keeps its LIKE
-\* wildcards and LIKE's ASCII case folding): emitted only where it changes the meaning, so that a mismatch of
-\* exactly this shape can be attributed to the known finding and any other mismatch cannot
-Dev == INSTANCE Sem WITH Deviations <- {"like_dynamic_meta"}
-RECURSIVE HasDynPattern(_)
+\* The same filter under each named deviation of Sem: emitted only where it changes the meaning, so that a
+\* mismatch of exactly that shape can be attributed to the corresponding known finding and any other cannot.
+\*   like_dynamic_meta    - a LIKE pattern taken from data keeps its wildcards and LIKE's ASCII case folding
+\*   concat_null_as_empty - concat treats NULL as the empty string (Django's Concat coalesces)
+DevLike == INSTANCE Sem WITH Deviations <- {"like_dynamic_meta"}
+DevConcat == INSTANCE Sem WITH Deviations <- {"concat_null_as_empty"}
+RECURSIVE HasDynPattern(_), HasCall(_, _)
 HasDynPattern(x) == \/ (x[1] = "Call" /\ x[2][3] \in {"contains", "startswith", "endswith"} /\ x[3][2][1] # "Lit")
                     \/ LET ks == Sub(x) IN \E i \in 1..Len(ks) : HasDynPattern(ks[i])
-SatDev(x) == LET cols == RefCols(x) IN { tup \in Tuples(cols) : Dev!Eval(x, EnvOf(cols, tup)) = TRUEV }
-DevField == IF HasDynPattern(t) /\ SatDev(t) # Sat(t) THEN <<SatDev(t)>> ELSE <<>>
+HasCall(x, f) == (x[1] = "Call" /\ x[2][3] = f) \/ LET ks == Sub(x) IN \E i \in 1..Len(ks) : HasCall(ks[i], f)
+SatLike(x) == LET cols == RefCols(x) IN { tup \in Tuples(cols) : DevLike!Eval(x, EnvOf(cols, tup)) = TRUEV }
+SatConcat(x) == LET cols == RefCols(x) IN { tup \in Tuples(cols) : DevConcat!Eval(x, EnvOf(cols, tup)) = TRUEV }
+DevField == (IF HasDynPattern(t) /\ SatLike(t) # Sat(t) THEN << <<"like_dynamic_meta", SatLike(t)>> >> ELSE <<>>)
+         \o (IF HasCall(t, "concat") /\ SatConcat(t) # Sat(t) THEN << <<"concat_null_as_empty", SatConcat(t)>> >> ELSE <<>>)
 
 Export == PrintT(ToJson(IF Complete
             THEN [k |-> "case", tree |-> t, nops |-> n, cols |-> RefCols(t), sat |-> Sat(t), satdev |-> DevField,
